@@ -294,14 +294,16 @@ def make_g(case):
     raise common.Infra(f"unknown g {g}")
 
 
-def make_solver(case):
+def make_solver(case, pol=None):
+    """`pol`: an existing policy object to attach (re-use of a step-size object by a second optimizer)"""
     import scico.numpy as snp
     from scico.optimize import PGM, AcceleratedPGM
 
     Q, b, x0 = unpack(case)
     f = quad_class()(Q, b, case["c"], float(case.get("barrier", 0.0)))
     cls = AcceleratedPGM if case["accel"] else PGM
-    pol = make_policy(case["policy"])
+    if pol is None:
+        pol = make_policy(case["policy"])
     s = cls(f=f, g=make_g(case), L0=case["L0"], x0=snp.array(x0), step_size=pol, maxiter=case["steps"])
     return s, pol
 
@@ -310,7 +312,7 @@ def _fl(v):
     return float(np.asarray(v))
 
 
-def run_real(case):
+def run_real(case, pol=None):
     """Drive the real solver step by step.  Returns a list of per-step records
 
         {"Lprev", "L", "x", "xprev_iter", "point", "ips": (xx,xg,gg)|None, "mem": (m1,m2), "first": bool,
@@ -320,7 +322,7 @@ def run_real(case):
     (no change to scico)."""
     import scico.numpy as snp
 
-    s, pol = make_solver(case)
+    s, pol = make_solver(case, pol)
     cplx = case["complex"]
     kind = case["policy"]["kind"]
     recs = []
